@@ -62,7 +62,7 @@ CHECKS["C17"] = dict(
     ref="§5 C17")
 
 CHECKS["C14"] = dict(
-    text="Model level (Lean): a channel is a byte sink; the stdout sink delivers the concatenation of all writes unchanged and in order for arbitrary content and sizes, the bytes a terminal produces do not depend on the sink, and equal the run output. The content of the property is runtime behaviour of the real stdout_channel: every check spawns child processes whose terminal is bound to terminalpp::stdout_channel, reads the pipe to EOF and compares byte for byte (NUL, >=0x80, writes of 0..64 KiB, 256 one-byte writes) with the capturing channel of the executor and with the model. Child environments: pending std::cout formatting state, errno left set, sync_with_stdio(false), stdout on a raw-mode pseudo terminal, last operation from an atexit handler, dup2 redirect half-way, signal storm on a full pipe. Partial: the iostream layer and flushing at process exit are observed, not proved. On the pinned tree the check found the empty write() body (fixed). Large writes (70 KB - 1 MB) are additionally made on a full pipe while SIGUSR1 is delivered repeatedly to the blocked writer (write(2) returns short counts) and the parent reads slowly.",
+    text="Model level (Lean): a channel is a byte sink; the stdout sink delivers the concatenation of all writes unchanged and in order for arbitrary content and sizes, the bytes a terminal produces do not depend on the sink, and equal the run output. The content of the property is runtime behaviour of the real stdout_channel: every check spawns child processes whose terminal is bound to terminalpp::stdout_channel, reads the pipe to EOF and compares byte for byte (NUL, >=0x80, writes of 0..64 KiB, 256 one-byte writes) with the capturing channel of the executor and with the model. Partial: the iostream layer and flushing at process exit are observed, not proved. On the pinned tree the check found the empty write() body (fixed). Large writes (70 KB - 1 MB) are additionally made on a full pipe while SIGUSR1 is delivered repeatedly to the blocked writer (write(2) returns short counts) and the parent reads slowly.",
     note="Lean kernel, no axioms beyond propext/Quot.sound; std::cout, the OS pipe and process-exit flushing are outside the model (stated limitation: level is proof for the sink model, differential execution for the runtime).",
     technique="Lean 4 theorems on a byte-sink model + child-process differential execution of the real stdout_channel",
     ref="§5 C14")
@@ -79,7 +79,7 @@ CHECKS["C04"] = dict(
     ref="§5 C04")
 
 CHECKS["C12"] = dict(
-    text="Model level (Lean): for any family of objects whose steps touch only their own state, every schedule that interleaves their operation scripts gives each object exactly the outputs and final state of its solo run (induction over schedules); instantiated for the terminal encoder. Manipulators and canvases are values in the model: streaming one manipulator OBJECT to several terminals (kind M) or drawing ONE canvas on several screens (kind K) must give every terminal / screen its run-alone bytes (oracle on real bytes). That the code has this shape is (i) a regenerated proof obligation - the inventory of all static-storage objects in writable sections of the library built from the working tree (nm), each matched to its source declaration, must be const/constexpr (no_mutable_statics, decided by the kernel on every run; a new mutable static or cache breaks it and is named) - and (ii) execution: sets of 2-8 terminals/screens/one-shot objects alive at once, run round-robin and under seeded random interleavings (ASan+UBSan) and concurrently one thread per object (ThreadSanitizer); each object's bytes, tokens and state records must equal its solo run and the model. Partial for schedules: TSan explores, it does not prove data-race freedom. Object sets include twin sets: the SAME operation sequence on 2-4 distinct objects that differ only in configuration (or not at all), which is what an argument-keyed cache shared between objects confuses.",
+    text="Model level (Lean): for any family of objects whose steps touch only their own state, every schedule that interleaves their operation scripts gives each object exactly the outputs and final state of its solo run (induction over schedules); instantiated for the terminal encoder. That the code has this shape is (i) a regenerated proof obligation - the inventory of all static-storage objects in writable sections of the library built from the working tree (nm), each matched to its source declaration, must be const/constexpr (no_mutable_statics, decided by the kernel on every run; a new mutable static or cache breaks it and is named) - and (ii) execution: sets of 2-8 terminals/screens/one-shot objects alive at once, run round-robin and under seeded random interleavings (ASan+UBSan) and concurrently one thread per object (ThreadSanitizer); each object's bytes, tokens and state records must equal its solo run and the model. Partial for schedules: TSan explores, it does not prove data-race freedom. Object sets include twin sets: the SAME operation sequence on 2-4 distinct objects that differ only in configuration (or not at all), which is what an argument-keyed cache shared between objects confuses.",
     note="Lean kernel; axioms propext/Quot.sound; the statics matcher (vlib/statics.py: nm -f sysv + regex over the sources) is unverified tooling; thread schedules are whatever the OS produces in the TSan runs; the C++ memory model is outside the Lean model.",
     technique="Lean 4 interleaving theorem + regenerated static-storage inventory as proof obligation + interleaved/concurrent differential execution (ASan, TSan)",
     ref="§5 C12")
@@ -89,7 +89,7 @@ CHECKS["C05"] = dict(
     text="Lean proves, for an idle decoder with ARBITRARY scratch fields: any concatenation of well-formed input items (characters, the five Enter forms, CSI cursor/Home/End/Tab/BackTab keys with repeat counts and modifiers in 7- and 8-bit form with meta prefix, SS3 keys, keypad CSI n;m~, other CSI sequences with parameters and private markers, X10 mouse reports) under the CR/LF adjacency condition decodes to exactly one expected token per item, in order (key, modifiers per the xterm rule, repeat count, mouse button and zero-based position, original sequence); decoding of an item does not depend on what preceded it; the key/modifier/mouse tables agree with the protocol tables for all bytes. Tied by the exhaustive (prefix state x next byte x suffix) sweep, the key-space sweep incl. atoi boundary values, mouse grids and random item streams; the oracle compares real tokens with items.map expected. The four key tables and the mouse table the model uses are proved equal (TablesTie, kernel evaluation) to the tables regenerated on every run from the declaration text inside /repo/src/detail/*.cpp.",
     note=INNOTE, technique="Lean 4 proof (per-item lemmas from idle with arbitrary scratch, induction over item lists) + exhaustive transition/key-space differential tie", ref="§5 C05")
 CHECKS["C06"] = dict(
-    text="Lean proves for arbitrary bytes and any partition into deliveries (empty ones included): the concatenation of the token lists equals the tokens of the whole stream, the final decoder state is the same, and the number of read callbacks equals the number of deliveries; any two partitions of the same stream agree. The executor re-arms async_read from inside the callback like a real client and counts invocations; every representative item split at every position plus random partitions of well-formed, malformed and UTF-8 streams. With the posted reads made explicit (Model/Reads.lean): a client that keeps ANY window of k >= 1 reads posted and re-arms one per handler never loses a delivery, the n-th delivery is served by the n-th read posted, once, with exactly its own tokens (C06_window_never_stalls; k = 0 loses everything, C06_no_read_posted); tied by runs with several reads posted, behaviour flags, pauses, output operations and multiplexed connections (kind J).",
+    text="Lean proves for arbitrary bytes and any partition into deliveries (empty ones included): the concatenation of the token lists equals the tokens of the whole stream, the final decoder state is the same, and the number of read callbacks equals the number of deliveries; any two partitions of the same stream agree. The executor re-arms async_read from inside the callback like a real client and counts invocations; every representative item split at every position plus random partitions of well-formed, malformed and UTF-8 streams.",
     note=INNOTE, technique="Lean 4 proof (fold over append / flatten) + partition differential tie with callback counting", ref="§5 C06")
 CHECKS["C07"] = dict(
     text="Lean proves: any four letters bring the input decoder from ANY state to idle (and three do not suffice - witness); two idle states with different scratch decode every stream and every delivery sequence identically (bisimulation), hence after garbage + 4 letters any suffix decodes as on a fresh terminal; every control sequence the decoder emits has at least one argument (the guard for arguments[0]); the markup decoder never yields more elements than input characters, consumes at least one character per element (termination), and never indexes the 38-entry handler table out of range. Termination of every model function is checked by Lean. 'Without undefined behaviour' on the compiled code is supported, not proved: every stream of C05/C06/C10 plus hostile streams (all strings over 11 byte classes up to length 4/6 for both decoders, random to 4096 bytes, digit runs to 10^5) runs under ASan+UBSan with no recovery; an abort is a violation with the input as replay. Partial for memory safety.",
